@@ -581,9 +581,21 @@ pub fn run_c10(tier: &str, seed: u64, out: &mut Out) {
     let mut r = Rng::new(seed);
     let n = match tier { "thorough" => 100_000, "search" => 30_000, _ => 3_000 };
     let all = Ro::all();
-    for i in 0..n {
-        let text: Vec<u8> = if i % 3 == 2 { mutate(gen_foreign(&mut r).as_bytes(), &mut r) } else { gen_foreign(&mut r).into_bytes() };
-        let ro = pick_ro(&mut r, &all);
+    // every kind of datum in every position of a chain of cells, in particular as the dotted tail
+    let kinds = ["x", "12", "\"s\"", "#\\a", "#t", "#nil", "#:k", "#u8(1 2)", "#(1 2)", "#()", "()", "(p q)", "(p . q)", "'q", "`(a ,b)", "#(1 (2 . #(3 4)))", "[c d]", "(a . [c d])"];
+    let mut shapes: Vec<String> = vec![];
+    for k in kinds {
+        shapes.push(format!("(a . {})", k));
+        shapes.push(format!("(a b . {})", k));
+        shapes.push(format!("({} . {})", k, k));
+        shapes.push(format!("((k . {}) z)", k));
+        shapes.push(format!("#((a . {}) {})", k, k));
+        shapes.push(format!("'(a . {})", k));
+    }
+    for i in 0..n + 2 * shapes.len() {
+        let fixed = i < 2 * shapes.len();
+        let text: Vec<u8> = if fixed { shapes[i / 2].clone().into_bytes() } else if i % 3 == 2 { mutate(gen_foreign(&mut r).as_bytes(), &mut r) } else { gen_foreign(&mut r).into_bytes() };
+        let ro = if fixed { if i % 2 == 0 { Ro::DEFAULT } else { Ro::ELISP } } else { pick_ro(&mut r, &all) };
         for src in srcs_for(&text) {
             let cap = text.len() + 3;
             let case = format!("iter {} {} d {} {}", src.name(), ro.code(), cap, bytes_code(&text));
@@ -614,6 +626,23 @@ pub fn run_c10(tier: &str, seed: u64, out: &mut Out) {
             }
             let v: Value = d.clone().into();
             if &v != d.value() { out.fail("accessors", "Value::from(datum) differs from datum.value()".into(), case.clone(), json!({})); }
+            // an owned copy - a clone, or a datum made from a reference to the whole - is walked by the
+            // accessors exactly like the parsed datum, and the accessors stay coherent on it
+            {
+                let orig = crate::pobs::refwalk_res(&Ok(d.clone()));
+                let copy = d.clone();
+                let from_ref: lexpr::Datum = d.as_ref().into();
+                out.oracle_checks += 2;
+                for (what, c) in [("clone", &copy), ("Datum::from(Ref)", &from_ref)] {
+                    let w = { let mut s = String::new(); let r = std::panic::catch_unwind(std::panic::AssertUnwindSafe(|| { crate::pobs::refwalk_obs(c.as_ref(), &mut s); })); if r.is_err() { s = "PANIC".into(); } format!("ok {}", s) };
+                    if w != orig { out.fail("copy-walk", format!("the accessor walk of a {} differs from the walk of the parsed datum", what), case.clone(), json!({})); }
+                    let res = std::panic::catch_unwind(std::panic::AssertUnwindSafe(|| { let mut o = Out::new(); walk_refs(&mut o, c.as_ref(), &case, 0); o }));
+                    match res {
+                        Ok(o) => { out.oracle_checks += o.oracle_checks; out.failures.extend(o.failures); }
+                        Err(_) => out.fail("panic", format!("a datum accessor panicked on a {}", what), case.clone(), json!({})),
+                    }
+                }
+            }
             // datum equality: equal to its clone and to a second parse of the same text; the same datum
             // moved one column to the right has other spans
             out.oracle_checks += 1;
